@@ -89,6 +89,60 @@ def tree_has_degenerate_planar(node, x, c):
     return any(n.kind == "Planar" and planar_degenerate(n.obj, cc) for n, d, xx, cc in tr.leaf_calls)
 
 
+def tied_indices(xf, pool):
+    """Coordinates sitting exactly on a value an implementation may compare against: the object's own pool, or a
+    'round' number (k/2, |k/2| <= 6) - Hypothesis draws those often and they are typical interval ends / max_val."""
+    pool = set(float(v) for v in pool)
+    return [i for i, v in enumerate(xf) if float(v) in pool or (abs(v) <= 6 and float(2 * v).is_integer())]
+
+
+def kink_match(eval_ld, x, pool, target, tol, delta=1e-8):
+    """Is `target` reproduced by eval_ld at x with the tied coordinates displaced by +-delta (some sign pattern)?
+    Exhaustive for <= 4 ties, greedy coordinate-wise descent (exact for separable log-dets) beyond."""
+    import itertools
+    xf = np.asarray(x, np.float64).reshape(-1)
+    tied = tied_indices(xf, pool)
+    if not tied:
+        return False
+    step = delta * (1 + np.abs(xf))
+
+    def ld_at(signs):
+        # one-sided limit by Richardson extrapolation from displacements delta and 2 delta (the log-derivative of a
+        # spline can change by 1e4 per unit next to a narrow boundary bin)
+        vals = []
+        for m in (1.0, 2.0):
+            xn = xf.copy()
+            for i, sg in zip(tied, signs):
+                xn[i] = xf[i] + sg * m * step[i]
+            try:
+                v = eval_ld(xn.reshape(np.shape(x)))
+            except Exception:  # noqa: BLE001
+                return np.inf
+            if not np.isfinite(v):
+                return np.inf
+            vals.append(v)
+        return 2 * vals[0] - vals[1]
+
+    if len(tied) <= 4:
+        return any(abs(target - ld_at(sg)) <= tol for sg in itertools.product((1.0, -1.0), repeat=len(tied)))
+    for start in (1.0, -1.0):
+        signs = [start] * len(tied)
+        best = abs(target - ld_at(signs))
+        for _ in range(2):
+            for j in range(len(tied)):
+                if best <= tol:
+                    return True
+                signs[j] = -signs[j]
+                e = abs(target - ld_at(signs))
+                if e < best:
+                    best = e
+                else:
+                    signs[j] = -signs[j]
+        if best <= tol:
+            return True
+    return False
+
+
 def amax(a):
     a = np.asarray(a, np.float64)
     return float(np.max(np.abs(a), initial=0.0))
